@@ -32,9 +32,20 @@ def mc_varint(ctx):
 
 
 def mc_wire(ctx, emit=False):
-    cfg = tmpl("MC_Wire", Depth=ctx.pick(1, 2), MaxSeq=ctx.pick(2, 3), Emit="TRUE" if emit else "FALSE")
-    return tlc_mc(ctx, "wire-shapes" + ("-vec" if emit else ""), "MC_Wire", cfg, workers=12, want_prefix='<<"VEC"' if emit else None,
-                  timeout=ctx.pick(900, 7200))
+    # quick: all depth-1 shapes with sequences up to 2; thorough adds the nested (depth-2) shapes with sequences up to 1
+    # (depth 2 with longer sequences multiplies the re-padded encodings beyond what finishes in an hour)
+    insts = [(1, 2)] + ([(2, 1)] if ctx.tier == "thorough" else [])
+    res = None
+    for depth, maxseq in insts:
+        cfg = tmpl("MC_Wire", Depth=depth, MaxSeq=maxseq, Emit="TRUE" if emit else "FALSE")
+        r = tlc_mc(ctx, f"wire-shapes-d{depth}s{maxseq}" + ("-vec" if emit else ""), "MC_Wire", cfg, workers=12,
+                   want_prefix='<<"VEC"' if emit else None, timeout=ctx.pick(900, 3600))
+        if res is None:
+            res = r
+        elif emit:
+            res["lines"] = list(dict.fromkeys(res.get("lines", []) + r.pop("lines", [])))
+            r["lines"] = []
+    return res
 
 
 # --------------------------------------------------------------------------- trace stages
@@ -483,16 +494,25 @@ DYN_ASSUME = WIRE_ASSUME + [
 # --------------------------------------------------------------------------- properties
 
 
+def corpus_trace(ctx):
+    """concrete Rust types (derived structs/enums of every form, serde's std impls) through all entry pairings"""
+    cargo_build(ctx, "h_core")
+    cmds = [([hbin("h_core"), "corpus", "--reps", str(ctx.pick(1, 6)), "--seed", str(ctx.seed * 100 + i)], f"corpus-{i}.ndjson") for i in range(NSH)]
+    return trace_stage(ctx, "corpus", cmds, "Trace_Wire")
+
+
 def run_c01(ctx):
     mc_varint(ctx)
     wire_vectors(ctx)
     wire_trace(ctx)
+    corpus_trace(ctx)
 
 
 def run_c02(ctx):
     mc_varint(ctx)
     wire_vectors(ctx)
     wire_trace(ctx)
+    corpus_trace(ctx)
 
 
 def run_c03(ctx):
